@@ -248,6 +248,8 @@ fn wraps(x: &Sel) -> Vec<Sel> {
     // unknown names
     out.push(Sel::Wrap { from: Box::new(x.clone()), cols: vec!["nope".into()], cond: None });
     out.push(Sel::Wrap { from: Box::new(x.clone()), cols: vec![], cond: Some(E::bin(Bin::Eq, E::col("nope"), E::int(1))) });
+    out.push(Sel::Wrap { from: Box::new(x.clone()), cols: vec![], cond: Some(E::bin(Bin::Or, E::int(1), E::bin(Bin::Eq, E::col("nope"), E::int(1)))) });
+    out.push(Sel::Wrap { from: Box::new(x.clone()), cols: vec![], cond: Some(E::bin(Bin::And, E::null(), E::col("nope"))) });
     out
 }
 
@@ -265,6 +267,11 @@ fn on_conditions(l: &Sel, r: &Sel) -> Vec<E> {
     }
     if let (Some(ln), Some(rn)) = (lc.last(), rc.last()) {
         out.push(E::bin(Bin::Eq, E::col(ln), E::col(rn)));
+    }
+    // an unknown column behind an operand that decides the result alone
+    if let Some(lk) = lc.first() {
+        out.push(E::bin(Bin::Or, E::int(1), E::bin(Bin::Eq, E::col(lk), E::col("nope.nope"))));
+        out.push(E::bin(Bin::And, E::int(0), E::bin(Bin::Eq, E::col("nope.nope"), E::col(lk))));
     }
     out
 }
@@ -358,7 +365,28 @@ fn eval_tree(h: &mut Harness, db: &Db, t: &Sel) -> Result<usize, (String, String
         Ok(rows) => {
             let reported = rows.len();
             let cols: Vec<(String, bool)> = rows.columns().iter().map(|c| (c.name().to_string(), c.is_nullable())).collect();
-            let v: Vec<Vec<Val>> = rows.map(|r| (0..r.len()).map(|i| Val::from_msi(&r[i])).collect()).collect();
+            let hint = rows.size_hint();
+            let mut v: Vec<Vec<Val>> = Vec::new();
+            for r in rows {
+                let by_pos: Vec<Val> = (0..r.len()).map(|i| Val::from_msi(&r[i])).collect();
+                // result cells by (unambiguous) column name
+                for (i, (name, _)) in cols.iter().enumerate() {
+                    if cols.iter().filter(|c| c.0 == *name).count() != 1 {
+                        continue;
+                    }
+                    if !r.has_column(name) {
+                        panic!("ACCESSORS DISAGREE: has_column({:?}) is false for a result column", name);
+                    }
+                    let by_name = Val::from_msi(&r[name.as_str()]);
+                    if by_name != by_pos[i] {
+                        panic!("ACCESSORS DISAGREE: result cell {} is {} by position and {} by the name {:?}", i, by_pos[i].show(), by_name.show(), name);
+                    }
+                }
+                v.push(by_pos);
+            }
+            if hint.0 > v.len() || hint.1.map(|h| h < v.len()).unwrap_or(false) {
+                panic!("ACCESSORS DISAGREE: size_hint {:?} but {} rows", hint, v.len());
+            }
             Ok((cols, v, reported))
         }
     });
